@@ -156,6 +156,12 @@ def linspace_exact(a, b, n):
 MSG = {1: "Pulse was not valid", 2: "Parametrization was not valid", 3: "Pulse and parametrization are incompatible. "}
 
 
+def zero_on(f, x):
+    """f vanishes identically on (-inf, x] (every piece that meets it is the zero polynomial)"""
+    k = sum(1 for b in f.breaks if b < x)
+    return all(all(c == 0 for c in p) for p in f.polys[:k + 1])
+
+
 def exact_reference(f, F, checks, eps, n, tol=0):
     """the validation of Pulse.__init__ re-implemented over Fractions with the exact integral: a second, independent
     implementation used (a) to measure the decision margin of a case, (b) as a cross-check of the Lean model.
@@ -172,7 +178,9 @@ def exact_reference(f, F, checks, eps, n, tol=0):
         [(f.exact(x), False, (lambda x=x: f(float(x)))) for x in linspace_exact(0, 1, n)],
         [(eps - abs(F.exact(0)), True, lambda: fe - abs(F(0) - 0)), (eps - abs(F.exact(1) - 1), True, lambda: fe - abs(F(1) - 1))] +
         [(F.exact(x + eps) - (F.exact(x) - tol), False, (lambda x=x: F(float(x) + fe) - (F(float(x)) - ft))) for x in linspace_exact(0, 1 - eps, n)],
-        [(eps - abs(f.integral(0, x) - F.exact(x)), False, None) for x in linspace_exact(eps, 1 - eps, n)]]
+        # quadrature-based, except where the waveform vanishes identically on [0, x]: there quad returns exactly 0.0
+        [(eps - abs(f.integral(0, x) - F.exact(x)), False, ((lambda x=x: fe - abs(0.0 - F(float(x)))) if zero_on(f, x) else None))
+         for x in linspace_exact(eps, 1 - eps, n)]]
 
     def dist(s, fl):
         if fl is None:
@@ -285,6 +293,11 @@ def validator_cases(ctx):
     add("boundary/F(1) = 1 - eps exactly (strict <)", "boundary", "reject", one, poly(0, 1 - e2), eps=e2)
     add("boundary/f = 0 at a grid point (>= 0)", "boundary", "accept", poly(0, 2), poly(0, 0, 1), eps=e2)
     add("boundary/F constant over eps-steps (>=)", "boundary", "accept", shifted, shifted.antiderivative(), eps=e2)
+    # `difference > eps` (not >=): F = running integral + eps on [1/8, 1/4), where the waveform is identically 0 (quad returns 0.0
+    # exactly), so that at the compat grid point 2/9 the difference is eps exactly; the jumps of F are away from every sampled point
+    box = PW(["1/8", "1/4"], [[0], [e2], [0]])
+    add("boundary/|quad - F| = eps exactly at a grid point (> eps rejects, = eps passes)", "boundary", None, shifted,
+        shifted.antiderivative().combine(box), eps=e2)
     # the sampling blind spot (the literal rejection claim is false; cf. QG.C13.literal_rejection_claim_false)
     add("blind-spot/F off by 2/5 between grid points", "blind spot", None, one, ident.combine(tent("1/2", "1/100", "2/5")))
     neg = one.combine(tent("1/2", "1/20", -3)).combine(tent("13/18", "1/20", 3))      # negative on (0.467, 0.533), between 4/9 and 5/9
@@ -521,41 +534,48 @@ def check_gaussian(loc, scale, xs, ref, perform_checks=False):
 
 
 def classify(info):
-    """signature of an oracle failure of an accepted Gaussian pulse"""
+    """signature of an oracle failure of an accepted Gaussian pulse.  `float-tail/left`: loc < 0.5 and *everything* observed is
+    explained by an error of at most 2 ulp(1) in the normalisation constant cdf(1) - cdf(0) (both cdf values ~ 1): the waveform is
+    the true waveform times Z_true/Z_used at every sampled point and in the integral, and the parametrisation is off by no more
+    than the same cancellation allows.  Any other failure keeps the generic signature (and is a VIOLATION)."""
     loc, Zt, Zf = info["loc"], info["Z_true"], info["Z_implied"]
-    if loc < 0.5 and Zt > 0 and math.isfinite(Zf) and abs(Zf - Zt) <= 2 * ULP1 * (1 + 1e-9) and ULP1 / Zt > TOL / 8:
-        # every failing quantity is explained by an error of at most 2 ulp(1) in cdf(1) - cdf(0), both cdf values ~ 1
-        return {"kind": "float-tail", "side": "left"}
+    if loc < 0.5 and Zt > 0 and math.isfinite(Zf) and Zf > 0 and ULP1 / Zt > TOL / 8:
+        ratio = Zt / Zf
+        if abs(Zf - Zt) <= 2 * ULP1 * (1 + 1e-9) and abs(info["worst_w"] - abs(ratio - 1)) <= 1e-9 + 1e-6 * info["worst_w"] \
+                and abs(info["integral"] - ratio) <= 1e-9 * max(1.0, ratio) and info["worst_F"] <= 4 * ULP1 / min(Zf, Zt) * (1 + 1e-6) \
+                and not any("negative" in f or "non-finite" in f for f in info["failures"]):
+            return {"kind": "float-tail", "side": "left"}
     return {"kind": "oracle", "part": "gaussian", "loc": info["loc"], "scale": info["scale"]}
 
 
 # =========================================================================================== pickling (outside the proof)
 def pickle_objects(seed, thorough):
+    """(name, constructor thunk) of every bundled pulse / gate set and of objects built on them"""
     import random
     from quantum_gates._gates import pulse as P, gates as G
     from quantum_gates._gates.integrator import Integrator
     from quantum_gates._gates import factories as Fa
     import quantum_gates.pulses as pub_p, quantum_gates.gates as pub_g
     rng = random.Random(f"C13-pickle-{seed}")              # own stream: a replay rebuilds the same objects from the recorded seed
-    objs = [("pulses.constant_pulse", pub_p.constant_pulse), ("pulses.constant_pulse_numerical", pub_p.constant_pulse_numerical),
-            ("pulses.gaussian_pulse", pub_p.gaussian_pulse), ("ConstantPulse()", P.ConstantPulse()),
-            ("ConstantPulseNumerical()", P.ConstantPulseNumerical()), ("GaussianPulse(1,1)", P.GaussianPulse(1, 1)),
-            ("GaussianPulse(0.3,0.1,perform_checks=True)", P.GaussianPulse(0.3, 0.1, perform_checks=True)),
-            ("Pulse(one, identity, perform_checks=True)", P.Pulse(P.one, P.identity, perform_checks=True))]
+    objs = [("pulses.constant_pulse", lambda: pub_p.constant_pulse), ("pulses.constant_pulse_numerical", lambda: pub_p.constant_pulse_numerical),
+            ("pulses.gaussian_pulse", lambda: pub_p.gaussian_pulse), ("ConstantPulse()", lambda: P.ConstantPulse()),
+            ("ConstantPulseNumerical()", lambda: P.ConstantPulseNumerical()), ("GaussianPulse(1,1)", lambda: P.GaussianPulse(1, 1)),
+            ("GaussianPulse(0.3,0.1,perform_checks=True)", lambda: P.GaussianPulse(0.3, 0.1, perform_checks=True)),
+            ("Pulse(one, identity, perform_checks=True)", lambda: P.Pulse(P.one, P.identity, perform_checks=True))]
     for _ in range(6 if thorough else 2):
         l, s = round(rng.uniform(-2, 3), 3), round(math.exp(rng.uniform(math.log(0.05), math.log(5))), 3)
-        objs.append((f"GaussianPulse({l},{s})", P.GaussianPulse(l, s)))
-    gp = P.GaussianPulse(round(rng.uniform(0, 1), 2), round(rng.uniform(0.2, 1.0), 2))
-    objs += [("gates.standard_gates", pub_g.standard_gates), ("gates.noise_free_gates", pub_g.noise_free_gates),
-             ("_gates.numerical_gates", G.numerical_gates), ("_gates.almost_noise_free_gates", G.almost_noise_free_gates),
-             ("Gates(gaussian_pulse)", G.Gates(P.gaussian_pulse)), (f"Gates(GaussianPulse({gp._loc},{gp._scale}))", G.Gates(gp)),
-             ("ScaledNoiseGates(0.5, gaussian_pulse)", G.ScaledNoiseGates(0.5, P.gaussian_pulse)), ("NoiseFreeGates()", G.NoiseFreeGates()),
-             ("Integrator(gaussian_pulse)", Integrator(P.gaussian_pulse)), ("Integrator(constant_pulse)", Integrator(P.constant_pulse))]
+        objs.append((f"GaussianPulse({l},{s})", lambda l=l, s=s: P.GaussianPulse(l, s)))
+    gl, gs = round(rng.uniform(0, 1), 2), round(rng.uniform(0.2, 1.0), 2)
+    objs += [("gates.standard_gates", lambda: pub_g.standard_gates), ("gates.noise_free_gates", lambda: pub_g.noise_free_gates),
+             ("_gates.numerical_gates", lambda: G.numerical_gates), ("_gates.almost_noise_free_gates", lambda: G.almost_noise_free_gates),
+             ("Gates(gaussian_pulse)", lambda: G.Gates(P.gaussian_pulse)), (f"Gates(GaussianPulse({gl},{gs}))", lambda: G.Gates(P.GaussianPulse(gl, gs))),
+             ("ScaledNoiseGates(0.5, gaussian_pulse)", lambda: G.ScaledNoiseGates(0.5, P.gaussian_pulse)), ("NoiseFreeGates()", lambda: G.NoiseFreeGates()),
+             ("Integrator(gaussian_pulse)", lambda: Integrator(P.gaussian_pulse)), ("Integrator(constant_pulse)", lambda: Integrator(P.constant_pulse))]
     for name in ("XFactory", "SXFactory", "SingleQubitGateFactory", "CRFactory", "CNOTFactory", "CNOTInvFactory", "ECRFactory", "ECRInvFactory"):
-        objs.append((f"{name}(Integrator(constant_pulse_numerical))", getattr(Fa, name)(Integrator(P.constant_pulse_numerical))))
-    objs.append(("XFactory(Integrator(gaussian_pulse))", Fa.XFactory(Integrator(P.gaussian_pulse))))
+        objs.append((f"{name}(Integrator(constant_pulse_numerical))", lambda name=name: getattr(Fa, name)(Integrator(P.constant_pulse_numerical))))
+    objs.append(("XFactory(Integrator(gaussian_pulse))", lambda: Fa.XFactory(Integrator(P.gaussian_pulse))))
     for name in ("BitflipFactory", "DepolarizingFactory", "RelaxationFactory"):
-        objs.append((f"{name}()", getattr(Fa, name)()))
+        objs.append((f"{name}()", lambda name=name: getattr(Fa, name)()))
     return objs
 
 
@@ -603,8 +623,12 @@ def sample_all(obj, seed, heavy):
     return out
 
 
-def check_pickle(name, obj, seed, heavy):
+def check_pickle(name, make, seed, heavy):
     """None or a failure text: pickle round trip (cold and warm caches), same seed -> identical samples"""
+    try:
+        obj = make()
+    except Exception as e:                                  # noqa
+        return f"constructing the object raised {type(e).__name__}: {str(e)[:120]}"
     try:
         cold = pickle.loads(pickle.dumps(obj))
         before = sample_all(obj, seed, heavy)
